@@ -338,6 +338,10 @@ func (e *NodeEnv) BoardShared(file, lock string) storage.Storage {
 func (e *NodeEnv) Restart() {
 	e.nopen++
 	img := filepath.Join(e.Dir, fmt.Sprintf("state-img-%d", e.nopen))
+	// a clean stop: the old handle is closed first (no background compaction while the image is taken)
+	if len(e.states) > 0 {
+		e.states[len(e.states)-1].VerifClose()
+	}
 	copyDir(filepath.Join(e.Dir, stateDirName(e.nopen-1)), img)
 	st, err := state.NewLevelDBState(img, topic)
 	if err != nil {
@@ -394,6 +398,20 @@ func tryCopyDir(src, dst string) bool {
 	if err != nil {
 		panic(err)
 	}
+	// size and modification time of every file before the copy: a file that LevelDB's background
+	// compaction is still WRITING while it is copied (a table file caught half-written next to a
+	// manifest that already names it gave "bad magic number" on reopening - an image no crash produces)
+	// makes the copy start over
+	type stamp struct {
+		size int64
+		mod  time.Time
+	}
+	stamps := map[string]stamp{}
+	for _, en := range ents {
+		if fi, err := en.Info(); err == nil {
+			stamps[en.Name()] = stamp{fi.Size(), fi.ModTime()}
+		}
+	}
 	for _, en := range ents {
 		if en.Name() == "LOCK" {
 			continue
@@ -419,6 +437,13 @@ func tryCopyDir(src, dst string) bool {
 	}
 	for i := range ents {
 		if ents[i].Name() != ents2[i].Name() {
+			return false
+		}
+		fi, err := ents2[i].Info()
+		if err != nil {
+			return false
+		}
+		if st, ok := stamps[ents[i].Name()]; ok && (st.size != fi.Size() || !st.mod.Equal(fi.ModTime())) {
 			return false
 		}
 	}
